@@ -6,7 +6,7 @@ def ctrlStep (d : DState) (j : Json) : DState × Json :=
   | "init" =>
     let job := pJob j
     let cl := pCluster j
-    let d' : DState := { job := job, cl := cl, sys := Sys.init job cl }
+    let d' : DState := { job := job, cl := cl, sys := Sys.init job cl, hidden := fun _ => false }
     (d', full d' [])
   | "round" =>
     let oracle := (getArr j "asg").map pAsg
@@ -38,26 +38,38 @@ def ctrlStep (d : DState) (j : Json) : DState × Json :=
         let d' := { d with sys := s9 }
         (d', full d' [("enabled", toJson true), ("cmds", Json.arr ((s9.env.log.drop before).map jCmd).toArray)])
   | "env" =>
-    let es : Option EnvStep :=
+    let xN : SysN := { sys := d.sys, hidden := d.hidden }
+    -- {"op":"env","yield":[t,k]}: the running body of t publishes its next output, which must be its k-th
+    match j.getObjVal? "yield" with
+    | .ok r =>
+      (match asArr r with
+       | [t, k] =>
+         if nextHidden d.job d.hidden (asNat t) != some (asNat k) then (d, Json.mkObj [("enabled", toJson false)]) else
+         (match stepN semStr d.job d.cl xN (.yield (asNat t)) with
+          | none => (d, Json.mkObj [("enabled", toJson false)])
+          | some x' => ({ d with hidden := x'.hidden }, Json.mkObj [("enabled", toJson true)]))
+       | _ => (d, Json.str "bad-op"))
+    | .error _ =>
+    let es : Option StepN :=
       match j.getObjVal? "run" with
-      | .ok r => (match asArr r with | [h, i, t] => some (.run ⟨asNat h, asNat i⟩ (asNat t)) | _ => none)
+      | .ok r => (match asArr r with | [h, i, t] => some (.start ⟨asNat h, asNat i⟩ (asNat t)) | _ => none)
       | .error _ =>
         -- the transfer/fetch is named by content; the model step takes its index
         let want : Option IO := match getArr j "io" with
           | [Json.str "transmit", t, k, s, g] => some (.transmit ⟨asNat t, asNat k⟩ (asNat s) (asNat g))
           | [Json.str "fetch", t, k, s] => some (.fetch ⟨asNat t, asNat k⟩ (asNat s))
           | _ => none
-        want.map (fun o => .io (d.sys.env.outstanding.findIdx (· == o)))
+        want.map (fun o => .base (.env (.io (d.sys.env.outstanding.findIdx (· == o)))))
     match es with
     | none => (d, Json.str "bad-op")
     | some es =>
-      match step semStr d.job d.cl d.sys (.env es) with
+      match stepN semStr d.job d.cl xN es with
       | none => (d, Json.mkObj [("enabled", toJson false)])
-      | some s => let d' := { d with sys := s }; (d', Json.mkObj [("enabled", toJson true), ("env", digestEnv d.job d.cl s.env)])
+      | some x' => let d' := { d with sys := x'.sys, hidden := x'.hidden }; (d', Json.mkObj [("enabled", toJson true), ("env", digestEnv d.job d.cl x'.sys.env)])
   | "deliver" =>
     let evs := (getArr j "events").filterMap pEvent
     if evs.length != (getArr j "events").length then (d, Json.str "bad-event") else
-    match step semStr d.job d.cl d.sys (.recv evs) with
+    match (stepN semStr d.job d.cl { sys := d.sys, hidden := d.hidden } (.base (.recv evs))).map (·.sys) with
     | none => (d, Json.mkObj [("enabled", toJson false)])
     | some s1 =>
       let s2 : Sys := Id.run do
